@@ -9,7 +9,7 @@ import struct
 
 from ..cfg import cfg_of
 from ..model import AnalysisError, call_name, calls_in, dotted, norm
-from .. import inline, rules
+from .. import inline, normal, rules
 from .. import conds as cnd
 from ._dispatch import check_dispatcher
 from .c09 import check_bytequeue_wait
@@ -173,12 +173,13 @@ def check_send_stops(ctx):
     repo = ctx.repo
     f = repo.method("Protocol", "send_message", inherited=False)
     ctx.touch(f)
-    cfg = cfg_of(f.node)
+    fn = normal.normalised(ctx, f, aliases=False, comps=False, ifexp=False)
+    cfg = cfg_of(fn)
     puts = [n for n in cfg.real_nodes() if any((call_name(c) or "").endswith("_send_queue.put") for c in n.calls)]
-    waits = [c for c in calls_in(f.node) if (call_name(c) or "").endswith(".wait")]
+    waits = [c for c in calls_in(fn) if (call_name(c) or "").endswith(".wait")]
     ok = len(puts) == 1 and len(waits) == 1
     if ok:
-        tests = rules.truthiness_tests(cfg, f.node, waits[0])
+        tests = rules.truthiness_tests(cfg, fn, waits[0])
         ok = bool(tests)
         if ok:
             tnode, falsy = tests[0]
@@ -196,7 +197,9 @@ def run(ctx):
     check_send(ctx)
     check_send_stops(ctx)
     sub = type(ctx)(ctx.prop, ctx.tier, ctx.seed, ctx.repo)
-    check_send_message(sub)
+    from .. import refmodels
+
+    refmodels.guarded(sub, "C17.P3", ["Protocol.send_message"], check_send_message)
     check_block_send_info(sub)
     for o in sub.obligations:
         o = dict(o)
